@@ -7,6 +7,8 @@ Helper lemmas: `OdmlModel/Proofs/Conv.lean`.
 -/
 import OdmlModel.Model.Conv
 import OdmlModel.Proofs.Conv
+import OdmlModel.Proofs.ConvWF
+import OdmlModel.Proofs.ConvAccept
 
 namespace C15
 open Conv Conv.Xml
@@ -551,5 +553,228 @@ theorem propToTree_vals (items : List DPItem) :
     vals10 (propToTree ⟨items⟩) =
       stripped ((items.flatMap pitemToTree |>.filter (fun k => k.tag == "value")).map Xml.text) := by
   rw [vals10_eq_stripped]; rfl
+
+/-! ## The whole-tree composition `readDoc (convertTree x) = content10 x`
+
+Helper files: `Proofs/ConvSel.lean` (the reader and the six passes in terms of "the children with
+tag t"), `Proofs/ConvUuid.lean` (`uuid.UUID` accepts and reprints what it printed),
+`Proofs/ConvProp.lean` (Property level), `Proofs/ConvTree.lean` (Sections by structural induction,
+Document), `Proofs/ConvWF.lean` (`WF10` implies the hypothesis `ConvWF`). -/
+
+/-- A 1.0 document with what the property quantifies over: Sections nested three deep with clashing
+    sibling names (`s`, `s`, and a literal `s-2`), Properties with 0 / 1 / 3 value elements and
+    attributes on the first, on later and on all values (agreeing and conflicting, 1.0 and 1.1
+    names, `binary`), clashing Property names, ids that are valid (with braces / upper case),
+    malformed and absent, both spellings of the dependency value, an unnamed Property, a
+    root-level Property, unsupported elements at every level, value texts with commas, quotes,
+    brackets and blanks. -/
+def sampleDoc : Xml :=
+  .elem "odML" [("version", "1".toList)] [] [
+    leaf "author" "A. Author".toList, leaf "foo" "dropped".toList,
+    leaf "id" "{79B613EB-A256-46BF-84F6-207DF465B8F7}".toList,
+    .elem "property" [] [] [leaf "name" "rootprop".toList, leaf "value" "1".toList],
+    .elem "section" [] [] [
+      leaf "name" "s".toList, leaf "type" "t".toList, leaf "definition" " def ".toList,
+      leaf "mapping" "m".toList,
+      .elem "property" [] [] [leaf "name" "p".toList, leaf "id" "not-a-uuid".toList,
+        .elem "value" [] " a,b ".toList [leaf "unit" "mV".toList, leaf "dtype" "binary".toList,
+          leaf "encoder" "e".toList],
+        .elem "value" [] "\"q\"".toList [leaf "unit" "V".toList, leaf "filename" "f.txt".toList],
+        .elem "value" [] " ".toList [leaf "uncertainty" "0.1".toList],
+        leaf "dependency_value" "dv".toList, leaf "bar" "x".toList],
+      .elem "property" [] [] [leaf "name" "p".toList, leaf "unit" "kg".toList,
+        leaf "id" "urn:uuid:12345678-1234-5678-1234-567812345678".toList,
+        .elem "value" [] "[x]".toList [leaf "unit" "g".toList, leaf "type" "string".toList,
+          leaf "reference" "ref".toList, leaf "definition" "d".toList]],
+      .elem "property" [] [] [leaf "name" "p-2".toList, leaf "dependencyvalue" "w".toList,
+        leaf "dependency" "p".toList],
+      .elem "property" [] [] [leaf "value" "unnamed".toList],
+      .elem "section" [] [] [
+        leaf "name" "sub".toList, leaf "type" "t2".toList,
+        leaf "id" "79b613eb-a256-46bf-84f6-207df465b8f7".toList,
+        .elem "section" [] [] [
+          leaf "name" "deep".toList, leaf "type" "t3".toList,
+          .elem "property" [] [] [leaf "name" "q".toList,
+            .elem "value" [] "1".toList [leaf "type" "int".toList],
+            .elem "value" [] "2".toList [leaf "type" "int".toList],
+            .elem "value" [] "3".toList [leaf "type" "float".toList]]]]],
+    .elem "section" [] [] [leaf "name" "s".toList, leaf "type" "t".toList],
+    .elem "section" [] [] [leaf "name" "s-2".toList, leaf "type" "t".toList, leaf "id" "x".toList],
+    .elem "section" [] [] [leaf "name" "s".toList, leaf "type" "t".toList]]
+
+set_option maxRecDepth 100000 in
+theorem sampleDoc_wf : WF10 sampleDoc = true ∧ ConvWF sampleDoc = true := by decide
+
+
+/-! ### Layer by layer: value attributes, Property, Section, Document -/
+
+/-- **The lifted element is the only one of its tag.**  A tag the reader looks at that occurs at
+    most once among the children of the 1.0 Property occurs at most once among the children of
+    the converted Property, however many value elements carry that attribute. -/
+theorem lifted_element_unique (enc : Bool) (sn st : List Char) (p : Xml) (t : String)
+    (ht : t ∈ propKeys) (h1 : t ≠ "dependencyvalue") (h2 : t ≠ "value")
+    (hu : (sel t p.kids).length ≤ 1) : (sel t (transformProp enc sn st p).1.kids).length ≤ 1 :=
+  transformProp_le_one enc sn st p t ht h1 h2 hu
+
+/-- **The reader's "last wins" is the converter's "first wins".**  The child of the converted
+    Property the strict reader takes for `t` (the last one) is the Property's own element, else
+    the first value attribute exported under `t`. -/
+theorem last_wins_is_first_wins (enc : Bool) (sn st : List Char) (p : Xml) (t : String)
+    (ht : t ∈ propKeys) (h1 : t ≠ "dependencyvalue") (h2 : t ≠ "value")
+    (hu : (sel t p.kids).length ≤ 1) :
+    findLast t (transformProp enc sn st p).1.kids =
+      match find t p.kids with
+      | some k => some k
+      | none => firstLift t ((valuesOf p).flatMap valueElems) := by
+  rw [findLast_eq_find_of_le_one t _ (lifted_element_unique enc sn st p t ht h1 h2 hu)]
+  exact lift_first_wins enc sn st t ht h1 h2 p
+
+/-- **Property level.**  For every named 1.0 Property with `PropOK` (each tag the reader looks at
+    at most once among its own children, one spelling of the dependency value, no `id` /
+    `dependencyvalue` on a value element) - any number of value elements, any attributes on
+    them, any texts, any unsupported children - the content the strict reader extracts from the
+    converted Property (after `_handle_properties` and `n + 1` runs of `_add_id`, one per
+    enclosing Section) is the content specification `propC10`: name, all values in order, unit,
+    uncertainty, dtype, value origin, definition, reference, dependency, dependency value, id. -/
+theorem property_content (fresh : List Char) (hf : idOf fresh fresh = fresh) (sn st : List Char)
+    (n : Nat) (p : Xml) (h : PropOK p) :
+    readProp (iter (addId fresh) (n + 1) (transformProp false sn st p).1) =
+      propC10 fresh (findText "name" p.kids) p :=
+  readProp_converted fresh hf fold_values sn st n p h
+
+/-- **Section level** (structural induction over the nested tree).  For every Section element
+    `k` with `convOK k` - any depth below it, any number of Sections and Properties - what the
+    reader extracts from the Section after all six passes (`n`: the name stage 1 gives it, `d`:
+    the number of Sections above it) is `secC10 fresh n k`: name, type, definition, id, the
+    named Properties in order under their unique names, and the Sections below, recursively. -/
+theorem section_content (fresh : List Char) (hf : idOf fresh fresh = fresh) (k : Xml)
+    (hs : k.tag = "section") (hk : convOK k = true) (d : Nat) (n : List Char) :
+    readSec (p6 fresh d (p4 (p3 false (rename n (p1 k))).1).1) = secC10 fresh n k :=
+  section_level fresh hf fold_values k hs hk d n
+
+/-- **Whole-tree composition: the conversion keeps the content.**  For every 1.0 element tree
+    `x` with `ConvWF x` (any depth, any number of Sections, Properties and value elements; any
+    names, ids, texts, root attributes other than `version="1.1"`, unsupported elements, unnamed
+    and root-level Properties), the document the strict reader extracts from the converted tree
+    is the content specification of the source: the same Section tree, the named Properties
+    with all their values in order, the attributes 1.0 kept on the values, unique sibling names,
+    valid ids kept and the others fresh.  `hf`: `_add_id` leaves the fresh id alone (true of
+    every `str(uuid4())`: `fresh_uuid4_ok`, and of every text that is no uuid: `fresh_marker_ok`). -/
+theorem convert_preserves_content (fresh : List Char) (hf : idOf fresh fresh = fresh) (x : Xml)
+    (h : ConvWF x = true) : readDoc (convertTree fresh x) = content10 fresh x :=
+  readDoc_convertTree fresh hf fold_values x h
+
+/-- The same for the well-formedness predicate of the model (`WF10`: the one the driver
+    evaluates on every generated document and the tie compares `read` and `spec` under). -/
+theorem convert_preserves_content_wf10 (fresh : List Char) (hf : idOf fresh fresh = fresh) (x : Xml)
+    (h : WF10 x = true) : readDoc (convertTree fresh x) = content10 fresh x :=
+  convert_preserves_content fresh hf x (ConvWF_of_WF10 x h)
+
+/-- `WF10` implies `ConvWF` (which does not ask for the modelled shape, root attributes, a
+    single root id, Section types, stripped names or the absence of XML attributes). -/
+theorem wf10_implies_convWF (x : Xml) (h : WF10 x = true) : ConvWF x = true := ConvWF_of_WF10 x h
+
+/-- The hypothesis on the fresh id holds for every text in the form `uuid.UUID` prints (what
+    `str(uuid.uuid4())` is) and for every text `uuid.UUID` rejects (the marker of the tie). -/
+theorem fresh_uuid4_ok (fresh : List Char) (h : parseUuid fresh = some fresh) :
+    idOf fresh fresh = fresh := idOf_fresh_of_canonical fresh h
+
+theorem fresh_marker_ok (fresh : List Char) (h : parseUuid fresh = none) :
+    idOf fresh fresh = fresh := idOf_fresh_of_invalid fresh h
+
+/-- `uuid.UUID` accepts what it printed and prints it the same way: a second `_add_id` on the
+    same element (Properties get one per enclosing Section) does not change the id. -/
+theorem add_id_twice (fresh t : List Char) (hf : idOf fresh fresh = fresh) :
+    idOf fresh (idOf fresh t) = idOf fresh t := idOf_idem fresh t hf
+
+example : parseUuid "0b2a6bf1-118e-4c3d-9a95-aab7b9559d01".toList
+    = some "0b2a6bf1-118e-4c3d-9a95-aab7b9559d01".toList ∧
+    parseUuid "#fresh-uuid4#".toList = none := by decide
+
+/-- The hypotheses are met by a realistic document, and the theorem applies to it. -/
+example : readDoc (convertTree "0b2a6bf1-118e-4c3d-9a95-aab7b9559d01".toList sampleDoc) =
+    content10 "0b2a6bf1-118e-4c3d-9a95-aab7b9559d01".toList sampleDoc :=
+  convert_preserves_content_wf10 _ (fresh_uuid4_ok _ (by decide)) sampleDoc sampleDoc_wf.1
+
+/-- A document outside `WF10` (not of the modelled shape: a Section inside an unsupported
+    element; XML attributes; an untyped Section; two root ids) that `ConvWF` covers. -/
+def sampleLoose : Xml :=
+  .elem "root" [("version", "1".toList), ("x", "y".toList)] [] [
+    leaf "id" "a".toList, leaf "id" "b".toList,
+    .elem "wrapper" [] [] [.elem "section" [] [] []],
+    .elem "section" [("a", "b".toList)] [] [leaf "name" " n ".toList,
+      .elem "property" [("k", "v".toList)] [] [leaf "name" "".toList, leaf "value" "1".toList,
+        leaf "value" "2".toList]]]
+
+example : WF10 sampleLoose = false ∧ ConvWF sampleLoose = true := by decide
+
+/-! ### The hypotheses are needed -/
+
+/-- Two `unit` children on a 1.0 Property: the converter keeps both, the reader takes the last,
+    the specification (first occurrence) the first. -/
+theorem property_content_needs_unique_tags :
+    let p : Xml := .elem "property" [] [] [leaf "name" "p".toList, leaf "unit" "mV".toList,
+      leaf "unit" "V".toList]
+    readProp (iter (addId "f".toList) 1 (transformProp false [] [] p).1) ≠
+      propC10 "f".toList (findText "name" p.kids) p := by decide
+
+/-- An `id` on a value element is lifted and then taken for the Property's id. -/
+theorem property_content_needs_no_value_id :
+    let p : Xml := .elem "property" [] [] [leaf "name" "p".toList,
+      .elem "value" [] "1".toList [leaf "id" "79b613eb-a256-46bf-84f6-207df465b8f7".toList]]
+    readProp (iter (addId "f".toList) 1 (transformProp false [] [] p).1) ≠
+      propC10 "f".toList (findText "name" p.kids) p := by decide
+
+/-- A fresh id that is a uuid but not in printed form (upper case) is normalised by the second
+    `_add_id` run of a Property two Sections deep. -/
+theorem property_content_needs_fresh_canonical :
+    let p : Xml := .elem "property" [] [] [leaf "name" "p".toList]
+    let f := "79B613EB-A256-46BF-84F6-207DF465B8F7".toList
+    idOf f f ≠ f ∧
+    readProp (iter (addId f) 2 (transformProp false [] [] p).1) ≠
+      propC10 f (findText "name" p.kids) p := by decide
+
+/-! ### ... and yields a loadable file: the structural conditions of the strict reader -/
+
+/-- **The converted tree is accepted by the strict reader** (its structural conditions
+    `readerAccepts`: root `odML` with exactly `version="1.1"`; every child tag of the Document,
+    of every Section and of every Property an argument of the 1.1 class; no XML attributes on
+    Sections / Properties; every Section with `name` and `type`, every Property with `name`) -
+    for every document tree with `LoadWF` (root `odML` with at most a `version` attribute,
+    Sections named and typed, no XML attributes on Sections and named Properties), any depth,
+    any number of Sections / Properties / values, whatever unsupported elements, unnamed
+    Properties, names, ids and texts it contains. -/
+theorem convert_accepted (fresh : List Char) (x : Xml) (h : LoadWF x = true) :
+    readerAccepts (convertTree fresh x) = true := by
+  simp only [LoadWF, Bool.and_eq_true, beq_iff_eq, decide_eq_true_eq] at h
+  obtain ⟨⟨⟨htag, hattrs⟩, hlen⟩, hkids⟩ := h
+  unfold readerAccepts
+  rw [(convert_root fresh x).1, convert_version fresh x hattrs hlen,
+    acceptsDocKids_convertTree fresh x hkids]
+  simp [htag]
+
+/-- `WF10` (with the root carrying one attribute at most, as in every XML file) implies `LoadWF`. -/
+theorem wf10_implies_loadWF (x : Xml) (h : WF10 x = true) (hl : x.attrs.length ≤ 1) :
+    LoadWF x = true := by
+  have hk := accOKKids_of_WF10 x h
+  simp only [WF10, Shape10, Bool.and_eq_true] at h
+  simp only [LoadWF, Bool.and_eq_true, decide_eq_true_eq]
+  exact ⟨⟨⟨h.1.1.1.1.1.1.1, h.1.1.1.1.2⟩, hl⟩, hk⟩
+
+/-- **C15 on the model, both halves at the level of the whole document**: the converted tree of
+    a well-formed 1.0 document passes the structural conditions of the strict reader, and what
+    the reader extracts from it is the content of the source. -/
+theorem convert_loadable_with_same_content (fresh : List Char) (hf : idOf fresh fresh = fresh)
+    (x : Xml) (h : WF10 x = true) (hl : x.attrs.length ≤ 1) :
+    readerAccepts (convertTree fresh x) = true ∧
+    readDoc (convertTree fresh x) = content10 fresh x :=
+  ⟨convert_accepted fresh x (wf10_implies_loadWF x h hl), convert_preserves_content_wf10 fresh hf x h⟩
+
+example : LoadWF sampleDoc = true ∧ sampleDoc.attrs.length ≤ 1 := by decide
+
+/-- A Section without a type is converted, but not accepted (the hypothesis is needed). -/
+theorem convert_accepted_needs_type :
+    readerAccepts (convertTree "f".toList (.elem "odML" [] [] [.elem "section" [] [] [leaf "name" "s".toList]]))
+      = false := by decide
 
 end C15
